@@ -16,6 +16,8 @@ class _NoSched:
 
 
 def jobs(mod, tier, seed, quick=(1, 1500, 200, 250, 10), thorough=(2, 30000, 6000, 8000, 16)):
+    quick = getattr(mod, "QUICK", quick)
+    thorough = getattr(mod, "THOROUGH", thorough)
     bound, max_runs, n_fixed, n_hyp, n_hyp_jobs = quick if tier == "quick" else thorough
     js = []
     for i in range(len(mod.FIXED)):
@@ -31,11 +33,16 @@ def run_job(mod, job, col):
     if k == "fixed_random":
         base = mod.FIXED[job["index"]]
 
+        cnt = [0]
+
         def onef(spec):
+            cnt[0] += 1
             case = dict(base, schedule=spec)
+            if cnt[0] % 3 == 0:
+                case["gran"] = "line"   # a third of the schedules pre-empt at source-line granularity
             fs, nt, labels, trace, _s = mod.run_case_full(case)
             if fs and trace is not None:
-                case = dict(base, schedule=S.replay_spec(trace))
+                case = dict(case, schedule=S.replay_spec(trace))
             col.record(case, fs, nontrivial=nt, labels=set(labels) | {"fixed-scenario"})
 
         hyp_run(S.schedule_strategy(), onef, job["n"], job["seed"])
